@@ -1590,6 +1590,10 @@ sf_seek	(SNDFILE *sndfile, sf_count_t offset, int whence)
 
 		retval = psf->seek (psf, new_mode, seek_from_start) ;
 
+		/* A failed seek must not clobber the current positions. */
+		if (retval < 0)
+			return retval ;
+
 		switch (new_mode)
 		{	case SFM_READ :
 					psf->read_current = retval ;
